@@ -759,7 +759,7 @@ func firstN(s string, n int) string {
 func indent(s, pre string) string { return strings.ReplaceAll(s, "\n", "\n"+pre) }
 
 func writeEvidence(p *Prop, tier string, seed int64, m *Merged, nviol int, knownHit map[string]int, unmet []string, wall float64) {
-	var samples []interface{}
+	samples := []interface{}{}
 	var strata []string
 	for k := range m.Samples {
 		strata = append(strata, k)
